@@ -132,8 +132,9 @@ func engcDrawCfg(t *rapid.T, name string) config.Local {
 	cfg := config.GetDefaultLocal()
 	cfg.MaxAcctLookback = uint64(rapid.IntRange(1, 8).Draw(t, name+".MaxAcctLookback"))
 	cfg.Archival = rapid.Bool().Draw(t, name+".Archival")
-	// every open/reload with the LRU caches enabled allocates ~60 MB (100000-entry buffers): keep it to half the worlds
-	cfg.DisableLedgerLRUCache = rapid.Bool().Draw(t, name+".noLRU")
+	// every open/reload with the LRU caches enabled allocates and clears ~60 MB (100000-entry buffers), 0.4 s on an idle
+	// machine and seconds on a loaded one: a third of the nodes have them, and those get a small reload budget
+	cfg.DisableLedgerLRUCache = rapid.IntRange(0, 2).Draw(t, name+".LRU") != 0
 	// the verified-transaction cache is sized max(VerifiedTranscationsCacheSize, TxPoolSize) entries on every open
 	cfg.TxPoolSize = 100
 	cfg.VerifiedTranscationsCacheSize = 100
@@ -235,8 +236,11 @@ func engcNewWorld(tb testing.TB, t *rapid.T, opts engcOpts) *engcWorld {
 		t.Fatalf("ENGINE: MkdirTemp: %v", err)
 	}
 	w.dir = dir
-	mk := func(name string) *engcNode {
+	mk := func(name string, forceNoLRU bool) *engcNode {
 		n := &engcNode{Name: name, w: w, Cfg: engcDrawCfg(t, name)}
+		if forceNoLRU {
+			n.Cfg.DisableLedgerLRUCache = true
+		}
 		n.OnDisk = !opts.ForceMem && rapid.IntRange(0, 2).Draw(t, name+".onDisk") == 0
 		n.prefix = filepath.Join(dir, fmt.Sprintf("%s-%d", name, engcWorldSeq.Add(1)))
 		n.parked = rapid.IntRange(0, 3).Draw(t, name+".parked") != 0
@@ -245,10 +249,10 @@ func engcNewWorld(tb testing.TB, t *rapid.T, opts engcOpts) *engcWorld {
 		}
 		return n
 	}
-	w.Node = mk("node")
+	w.Node = mk("node", false)
 	w.Ledger = w.Node.L
 	if opts.Shadow {
-		w.Shadow = mk("shadow")
+		w.Shadow = mk("shadow", !w.Node.Cfg.DisableLedgerLRUCache) // at most one of the two nodes pays for the LRU buffers
 	}
 	w.tracef("world proto=%v users=%d node{lookback=%d archival=%v nolru=%v disk=%v parked=%v}", w.CV, nUsers,
 		w.Node.Cfg.MaxAcctLookback, w.Node.Cfg.Archival, w.Node.Cfg.DisableLedgerLRUCache, w.Node.OnDisk, w.Node.parked)
@@ -385,9 +389,9 @@ func (n *engcNode) OpSetParked(parked bool) {
 	n.w.tracef("%s parked=%v", n.Name, parked)
 }
 
-// ReloadBudgetLeft: with the LRU caches enabled every reload/reopen costs ~0.4 s CPU; checks use this to cap them.
+// ReloadBudgetLeft: with the LRU caches enabled every reload/reopen costs >= 0.4 s CPU; checks use this to cap them.
 func (n *engcNode) ReloadBudgetLeft() bool {
-	return n.Cfg.DisableLedgerLRUCache || n.Reloads+n.Reopens < 3
+	return n.Cfg.DisableLedgerLRUCache || n.Reloads+n.Reopens < 1
 }
 
 // OpReload runs Ledger.reloadLedger() (trackers closed, re-initialised from the DB, blocks replayed).
